@@ -8,10 +8,20 @@ import Sif.Generated.DispConsts
 namespace Sif.Drv
 open Sif Sif.Disp
 
+/-- state of family `rewards`: stored periods and accumulator, plus running totals for the
+    cumulative predicate (entitlements computed by the model, amounts observed) -/
+structure RwSt where
+  fix : Bool := true            -- the model of the tree with fixes/F10.diff applied
+  periods : List Sif.Rewards.Period := []
+  accu : Nat := 0
+  accu0 : Nat := 0
+  entitledSoFar : Nat := 0
+
 structure IssueSt where
   cfg : MintCfg
   ecoBlocked : Bool
   ms : MintState
+  rw : RwSt := {}
 
 def rowan : Denom := "rowan".toList
 
@@ -63,5 +73,53 @@ def handleMint (st : IssueSt) : List String → Option (IssueSt × String)
       let per ← parseNat per; let c0 ← parseNat c0; let n ← parseNat n; let cNow ← parseNat cNow
       some (st, toString (Sif.Spec.C20.mintAfterOK Sif.Spec.C20.capRowan per c0 n cNow))
   | _ => none
+
+def parsePeriods : List String → Option (List Sif.Rewards.Period)
+  | [] => some []
+  | a :: b :: c :: d :: rest => do
+      let a ← parseNat a; let b ← parseNat b; let c ← parseNat c; let d ← parseNat d
+      let r ← parsePeriods rest
+      some (⟨a, b, c, d⟩ :: r)
+  | _ => none
+
+def parseCur (s : String) : Option (Option Sif.Rewards.Period) :=
+  if s = "cur=none" then some none else
+  match ((s.drop 4).toString.splitOn ",") with
+  | [a, b, c, d] => do
+      let a ← parseNat a; let b ← parseNat b; let c ← parseNat c; let d ← parseNat d
+      some (some ⟨a, b, c, d⟩)
+  | _ => none
+
+open Sif.Rewards in
+def handleRewards (st : IssueSt) : List String → Option (IssueSt × String)
+  | "rw.periods" :: rest => do
+      let ps ← parsePeriods rest
+      some ({ st with rw := { st.rw with periods := ps } }, "ok")
+  | ["rw.init", accu] => do
+      let accu ← parseNat accu
+      some ({ st with rw := { st.rw with accu := accu, accu0 := accu, entitledSoFar := 0 } }, "ok")
+  | ["rw.end", h, observed] => do
+      let h ← parseNat h; let observed ← parseNat observed
+      let env : Env := { active := true, raws := [observed], burned := 0 }
+      match endBlock st.rw.fix st.rw.periods h st.rw.accu env with
+      | .ok (accu', m) =>
+          let ent := Sif.Spec.C20.entitledAt st.rw.periods h
+          some ({ st with rw := { st.rw with accu := accu', entitledSoFar := st.rw.entitledSoFar + ent } }, s!"accu={accu'} minted={m}")
+      | .error _ => some (st, "panic")
+  | ["chk", "c20.rwblock", _tag, h, minted, cur] => do
+      let h ← parseNat h; let minted ← parseNat minted; let cur ← parseCur cur
+      some (st, toString (Sif.Spec.C20.rewardsBlockOK cur h minted))
+  | ["chk", "c20.rwperiod", _tag, a, b, c, d, total] => do
+      let a ← parseNat a; let b ← parseNat b; let c ← parseNat c; let d ← parseNat d; let total ← parseNat total
+      some (st, toString (Sif.Spec.C20.rewardsPeriodOK ⟨a, b, c, d⟩ total))
+  | ["chk", "c20.rwcum", _tag, totalMinted, accuNow] => do
+      let totalMinted ← parseNat totalMinted; let accuNow ← parseNat accuNow
+      some (st, toString (Sif.Spec.C20.rewardsCumOK st.rw.accu0 st.rw.entitledSoFar totalMinted accuNow))
+  | _ => none
+
+def handleIssue (st : IssueSt) (toks : List String) : Option (IssueSt × String) :=
+  match handleMint st toks with
+  | some r => some r
+  | none => handleRewards st toks
 
 end Sif.Drv
